@@ -1,6 +1,7 @@
 package an
 
 import (
+	"go/constant"
 	"fmt"
 	"go/token"
 	"go/types"
@@ -40,10 +41,11 @@ type world struct {
 	deriv map[ssa.Value]string // origin -> heap field that holds an un-copied slice of its Body/Header
 	dfree map[ssa.Value]bool   // origins with a pending `defer m.Free()` (released at rundefers)
 	wr    map[ssa.Value]string // origin -> where the message was first written through (Header/Body)
+	bools map[ssa.Value]bool   // boolean merge -> its constant value on the way this world came by
 }
 
 func newWorld() *world {
-	return &world{o: map[ssa.Value]ost{}, alias: map[ssa.Value]ssa.Value{}, agg: map[*ssa.Alloc][]ssa.Value{}, hdr: map[ssa.Value]bool{}, errs: map[ssa.Value]bool{}, deriv: map[ssa.Value]string{}, dfree: map[ssa.Value]bool{}, wr: map[ssa.Value]string{}}
+	return &world{o: map[ssa.Value]ost{}, alias: map[ssa.Value]ssa.Value{}, agg: map[*ssa.Alloc][]ssa.Value{}, hdr: map[ssa.Value]bool{}, errs: map[ssa.Value]bool{}, deriv: map[ssa.Value]string{}, dfree: map[ssa.Value]bool{}, wr: map[ssa.Value]string{}, bools: map[ssa.Value]bool{}}
 }
 
 func (w *world) clone() *world {
@@ -71,6 +73,9 @@ func (w *world) clone() *world {
 	}
 	for k, v := range w.wr {
 		n.wr[k] = v
+	}
+	for k, v := range w.bools {
+		n.bools[k] = v
 	}
 	return n
 }
@@ -110,6 +115,9 @@ func (w *world) key() string {
 	}
 	for k := range w.wr {
 		parts = append(parts, "wr:"+k.Name())
+	}
+	for k, v := range w.bools {
+		parts = append(parts, fmt.Sprintf("bool:%s=%v", k.Name(), v))
 	}
 	sort.Strings(parts)
 	return strings.Join(parts, ";")
@@ -157,6 +165,11 @@ func isMsgPtr(t types.Type) bool {
 	}
 	n, ok := el.(*types.Named)
 	return ok && n.Obj().Name() == "Message" && n.Obj().Pkg() != nil && n.Obj().Pkg().Path() == ModPath
+}
+
+func isBoolType(t types.Type) bool {
+	b, ok := t.Underlying().(*types.Basic)
+	return ok && b.Kind() == types.Bool
 }
 
 func msgMethod(c *ssa.CallCommon) string {
@@ -540,6 +553,29 @@ func (p *Prog) e5Func(r *e5Result, fn *ssa.Function) *e5Ctx {
 				if !ok {
 					break
 				}
+				if pi >= 0 && !isMsgPtr(ph.Type()) {
+					// single-exit style: `err = X … return err`, `drop = true … if drop {…}`:
+					// on this way into the merge the error / flag is what this edge carries
+					e := ph.Edges[pi]
+					switch {
+					case ph.Type().String() == "error":
+						if k, ok := constLikeValue(e); ok {
+							nw.errs[ph] = k == "nil"
+						} else if known, ok := w.errs[e]; ok {
+							nw.errs[ph] = known
+						} else {
+							delete(nw.errs, ph)
+						}
+					case isBoolType(ph.Type()):
+						if k, ok := e.(*ssa.Const); ok && k.Value != nil && k.Value.Kind() == constant.Bool {
+							nw.bools[ph] = constant.BoolVal(k.Value)
+						} else if known, ok := w.bools[e]; ok {
+							nw.bools[ph] = known
+						} else {
+							delete(nw.bools, ph)
+						}
+					}
+				}
 				if !isMsgPtr(ph.Type()) || pi < 0 {
 					continue
 				}
@@ -575,6 +611,16 @@ func (p *Prog) e5Func(r *e5Result, fn *ssa.Function) *e5Ctx {
 
 // refine applies a branch condition to a world; false = edge infeasible in this world.
 func (c *e5Ctx) refine(w *world, iff *ssa.If, taken bool) bool {
+	// a flag whose value is known on the way this world came by
+	{
+		cond, want := iff.Cond, taken
+		if u, ok := cond.(*ssa.UnOp); ok && u.Op == token.NOT {
+			cond, want = u.X, !taken
+		}
+		if known, ok := w.bools[cond]; ok && known != want {
+			return false
+		}
+	}
 	bo, ok := iff.Cond.(*ssa.BinOp)
 	if !ok {
 		return true
@@ -780,6 +826,14 @@ func (c *e5Ctx) transfer(w *world, ins ssa.Instruction) bool {
 					// restored only by a value of the header that was read BEFORE the strip
 					if v.Op == token.MUL && Desc(v.X) == Desc(fa) {
 						if at := c.hdrStrip[par]; at == nil || InstrDominates(v, at) {
+							delete(w.hdr, par)
+						}
+					}
+				case *ssa.Phi:
+					// `var hdr []byte; if … { hdr = m.Header; m.Header = hdr[4:] }`: the saved
+					// header is that read wherever the strip happened at all
+					if u, ok := derefBase(v).(*ssa.UnOp); ok && u.Op == token.MUL && Desc(u.X) == Desc(fa) {
+						if at := c.hdrStrip[par]; at == nil || InstrDominates(u, at) {
 							delete(w.hdr, par)
 						}
 					}
